@@ -88,13 +88,15 @@ def text_of(rnd, nlines, allow_specific=True, token_pool=()):
     return '\n'.join(lines) + ('\n' if rnd.random() < 0.85 else '')
 
 
-def make_case(rnd, wd, shape, tmpdir_tokens_with_one_iteration=True):
+def make_case(rnd, wd, shape, tmpdir_tokens_with_one_iteration=True, dated_first_line=None):
     """shape: list of output names among 'o1' (text file), 'o2' (binary file).  Returns the case description."""
     os.makedirs(wd, exist_ok=True)
     import getpass
     import socket
     # {TMPDIR} is replaced by the command itself with the value of $TMPDIR at the time it runs
     iterations = rnd.choice([1, 2, 2, 3])
+    if dated_first_line is not None and iterations == 1:
+        iterations = 2
     tokens = [socket.gethostname(), getpass.getuser(), wd]
     if iterations > 1 or tmpdir_tokens_with_one_iteration:
         tokens += ['{TMPDIR}', '{TMPDIR}/scratch.dat']
@@ -118,6 +120,10 @@ def make_case(rnd, wd, shape, tmpdir_tokens_with_one_iteration=True):
     beh = {'stdout': text_of(rnd, rnd.randint(0, 4), token_pool=tokens) if rnd.random() < 0.85 else '',
            'stderr': text_of(rnd, rnd.randint(1, 3), allow_specific=False, token_pool=tokens) if rnd.random() < 0.5 else '',
            'files': files, 'exit': rnd.choice([0, 0, 0, 3])}
+    if dated_first_line is not None:
+        # a first line of standard output that carries a date decades away from today (ordinary content)
+        rest = beh['stdout'].split('\n', 1)[1] if '\n' in beh['stdout'] else ''
+        beh['stdout'] = dated_first_line + '\n' + rest
     if beh['stderr'] and rnd.random() < 0.6:
         # a stderr line that mentions the machine (host / user / working directory)
         beh['stderr'] = beh['stderr'].rstrip('\n') + '\nwarning: running as %s\n' % rnd.choice(tokens[:3])
@@ -148,7 +154,7 @@ def make_case(rnd, wd, shape, tmpdir_tokens_with_one_iteration=True):
             f.write('left over from an earlier run\n')
     flags = []
     flags += ['-n', str(iterations)]
-    no_stdout = rnd.random() < 0.15
+    no_stdout = rnd.random() < 0.15 and dated_first_line is None
     no_stderr = rnd.random() < 0.15
     if no_stdout:
         flags.append('--no-stdout')
@@ -207,10 +213,10 @@ def set_behaviour(case, beh):
         json.dump(beh, f)
 
 
-def edit_first_line(text, rnd):
+def edit_first_line(text, rnd, how=None):
     """Change one character of the first (plain) line, or add / remove a line."""
     lines = text.split('\n')
-    how = rnd.choice(['char', 'char', 'addline', 'dropline'])
+    how = how or rnd.choice(['char', 'char', 'addline', 'dropline'])
     if how == 'char' or not text:
         if not lines[0]:
             lines[0] = 'X'
